@@ -25,6 +25,22 @@ CHECKS["C02"] = dict(
          "{0,1/2,3/4,1}, batch layouts, 1-8 emulated devices: bit-exact in the dyadic regime, rounding envelope otherwise.",
     technique="Lean 4 theorems over Model/Backup.lean + bit-exact differential check of the real sweep against the model run at Rat",
     ref="§8 C02")
+CHECKS["C08"] = dict(
+    text="Theorems about the generic solve loop, instantiated for all five solvers: at most k sweeps; stops at the first sweep whose test fires "
+         "(strict <) and never before; not converged => exactly k sweeps; iteration = start + sweeps; values = that many reference backups of the "
+         "initial estimates; results independent of checkpoint frequency; solve(k1);solve(k2) = solve(k1+k2) when the first call did not converge "
+         "(VI, RVI, periodic, semi-async for any permutation schedule, PI); documented thresholds. Tie: op sequences of solve() on all five real "
+         "solvers incl. shuffled semi-async (permutations from the hook) vs the model loop, bit-exact in the dyadic regime, plus impl-vs-impl twins.",
+    technique="Lean 4 induction over the generic loop combinator + differential op-sequence check of the five real solvers against the model",
+    ref="§8 C08")
+CHECKS["C03"] = dict(
+    text="Theorems: padding slots are never observable and results have one row per state in natural order (any per-slot computation, any layout); "
+         "sweep, policy extraction, evaluation sweep and initial values are equal for any two valid layouts; hence the whole solve result (every "
+         "iterate, convergence iteration, gain, history+index, policy, save labels) of VI, RVI, periodic VI and PI is equal for any two layouts. "
+         "Tie: all solvers under 1,2,3,4,8 (thorough 1..8) emulated devices x batch sizes, compared pairwise and with the layout-aware model; "
+         "partial: that pmap executes the modelled map on each device is observed, not proved.",
+    technique="Lean 4 theorems (layout independence by rewriting to map over states) + multi-device differential runs of the real solvers",
+    ref="§8 C03", note="pmap execution on emulated host devices is runtime behaviour, observed only.")
 PENDING = {}
 
 
@@ -53,7 +69,7 @@ def main():
         "setup_cmd": "cd lean && lake build MdpaxV",
         "hooks": {"guard": "MDPAX_VERIF", "enable": "MDPAX_VERIF=1 in the environment of the harness subprocesses (harness/core.py env_for_impl)",
                   "baseline_off_cmd": "cd /repo && env -u MDPAX_VERIF /venv/bin/python -m pytest -ra -q -p no:cacheprovider --timeout=900 --continue-on-collection-errors",
-                  "source_commits": [], "add_only": True},
+                  "source_commits": ["c1ecf40"], "add_only": True},
         "engines": [
             {"name": "lean4-model+correspondence", "path": "lean/ + harness/", "serves_properties": sorted(CHECKS),
              "kind_free_text": "Lean 4 executable model (MdpaxV/Model) with property theorems (MdpaxV/Props), run at Rat by Driver.lean and "
